@@ -13,6 +13,10 @@ correspondence leg   random walks (<= 5 calls after an initial forward) over {ex
                      fingerprint (harness/fingerprint.py) is taken before and after every call; the set of
                      components that changed {modes, theta, rng, state, attrs, spec, flags} and the
                      equality class of what the call returned = what `Drivers/C18.lean` predicts.
+step leg             forward -> observer call(s) -> loss = task + strength*cost -> backward -> optimizer step, against a
+                     twin wrapper that never called the observer: cost.requires_grad, the gradient of every parameter
+                     (None-ness included, NAS parameters first) and the parameters after the step must be equal
+                     (`optimizer_step_after_observers`; driver command `stepcase`).
 oracle leg           the property itself on those walks: an observer call leaves outputs (fixed input,
                      fixed seed), cost values, summary, state_dict (bit-compared), per-module `.training`,
                      `requires_grad`, plain attribute values and sampled coefficients unchanged; repeated
@@ -324,6 +328,123 @@ def run_walk(item, twin=True):
     return res
 
 
+# ------------------------------------------------- the next search step (gradient path) leg
+def _search_step(item, with_observers):
+    """forward -> [observer calls] -> loss = task + strength * cost -> backward -> SGD step, on a fresh wrapper"""
+    import torch
+    spec = item['spec']
+    slots = slot_specs(spec)
+    w, shape = build_for_walk(item)
+    x = om.data(shape, spec['seed'] + 4)
+    torch.manual_seed(spec['seed'] + 5)
+    for p in w.parameters():
+        p.grad = None
+    out = {'raised': None}
+    y = w(x)
+    if with_observers:
+        for op in item['ops']:
+            do_op(w, op, slots, x)
+    try:
+        c = w.get_cost('a') if isinstance(w.cost_specification, dict) else w.cost
+        out['cost'] = fp.thash(c) + '=' + repr(float(c))
+        out['live'] = bool(c.requires_grad)
+        loss = y.pow(2).mean() + 1e-3 * c
+        loss.backward()
+    except Exception as e:
+        out['raised'] = '%s: %s' % (type(e).__name__, str(e)[:160])
+        return out
+    nas = {n for n, _ in w.named_nas_parameters()}
+    out['grads'] = {n: (None if p.grad is None else fp.thash(p.grad)) for n, p in w.named_parameters()}
+    out['nas'] = sorted(n for n in out['grads'] if n in nas)
+    with torch.no_grad():
+        for p in w.parameters():
+            if p.grad is not None:
+                p.add_(p.grad, alpha=-0.05)
+    out['state'] = {k: fp.thash(v) for k, v in w.state_dict().items() if not k.endswith('theta_alpha')}
+    return out
+
+
+def run_step_case(item, shrink=True):
+    """'the search continues exactly as if the observer had not been called': the optimizer step that follows"""
+    import torch
+    import warnings
+    warnings.filterwarnings('ignore')
+    torch.set_num_threads(1)
+    common.use_repo_on_path()
+    spec = item['spec']
+    method = om.METHOD[spec['kind']]
+    w0, _ = build_for_walk(item)
+    res = {'flags': structure_flags(w0, spec), 'violations': [], 'real': None}
+    del w0
+    a, b = _search_step(item, True), _search_step(item, False)
+    case = {'kind': 'step', 'spec': spec, 'train': item['train'], 'disable': bool(item.get('disable')),
+            'mixed': item.get('mixed'), 'ops': list(item['ops'])}
+    problems = []
+    if b['raised']:
+        res['real'] = 'twin-raised'       # not an observer matter
+        return res
+    if a['raised']:
+        problems.append(('next-step-raises', 'after %s the step forward->loss->backward raises %s' % (item['ops'], a['raised'])))
+    else:
+        gdiff = [n for n in a['grads'] if a['grads'][n] != b['grads'][n]]
+        nasdiff = [n for n in gdiff if n in a['nas']]
+        if a['live'] != b['live'] or nasdiff:
+            none = [n for n in nasdiff if a['grads'][n] is None]
+            problems.append(('gradient-path', 'cost.requires_grad %s (without the observer calls: %s), cost value %s; gradient of '
+                             'NAS parameters differs: %s%s' % (a['live'], b['live'], 'unchanged' if a['cost'] == b['cost'] else 'changed',
+                                                               nasdiff[:3], ' (None: %s)' % none[:3] if none else '')))
+        elif gdiff or a['state'] != b['state']:
+            sdiff = [k for k in a['state'] if a['state'][k] != b['state'][k]]
+            problems.append(('next-step-differs', 'gradients %s / parameters after the optimizer step %s differ from the twin '
+                             'that never called %s' % (gdiff[:3], sdiff[:3], item['ops'])))
+        res['real'] = 'live=%d same=%s' % (a['live'], 'ne' if problems else 'eq')
+    if problems and shrink and len(item['ops']) > 1:
+        # attribute to a single observer call when one suffices
+        for i, op in enumerate(item['ops']):
+            one = [op] if not op.startswith('set:') else None
+            if one:
+                r1 = run_step_case(dict(item, ops=one), shrink=False)
+                if r1['violations']:
+                    res['violations'] += r1['violations']
+                    return res
+    for tag, what in problems:
+        opname = item['ops'][0].split(':')[0] if len(item['ops']) == 1 else 'observers'
+        if item['ops'] and all(o.startswith('set:') for o in item['ops']):
+            opname = 'spec-switch'
+        res['violations'].append({'key': 'C18:%s:%s:%s' % (method, opname, tag),
+                                  'what': 'forward -> %s -> loss = task + strength*cost -> backward -> step: %s' % (item['ops'], what),
+                                  'case': case})
+    return res
+
+
+def _step_cases(chk):
+    rng = chk.rng
+    items = []
+    for kind in om.KINDS:
+        method = om.METHOD[kind]
+        for train in (1, 0):
+            for cost in ('single', 'dict'):
+                spec = om.random_spec(rng, kind, cost=cost)
+                init = 's0' if cost == 'single' else 'd0'
+                c = 'cost' if cost == 'single' else 'getcost'
+                obs = [['export'], ['summary'], [c], ['set:s1' if cost == 'dict' else 'set:d1', 'set:' + init]]
+                if cost == 'dict':
+                    obs.append(['getcostb'])
+                if method == 'pit':
+                    obs.append(['exportnobn'])
+                if not chk.quick or train:
+                    obs.append(['summary', 'export', c, 'export'])
+                for o in obs:
+                    items.append({'spec': spec, 'train': train, 'ops': o, 'disable': False, 'mixed': None})
+        for _ in range(2 if chk.quick else 12):
+            spec = om.random_spec(rng, kind)
+            ab = [o for o in alphabet(method) if o in OBSERVERS]
+            items.append({'spec': spec, 'train': rng.randrange(2), 'ops': rng.choices(ab, k=rng.randint(1, 3)),
+                          'disable': method == 'mps' and rng.random() < 0.3,
+                          'mixed': rng.choice([None, None, 'bn', 'drop', 'bn+drop'])})
+    return items
+
+
 def _obs_part(r):
     return {k: r[k] for k in ('modes', 'state', 'theta', 'reqgrad', 'vals', 'spec')}
 
@@ -408,8 +529,26 @@ def run(chk):
     chk.prove()
     items = _cases(chk)
     results = common.pmap(run_walk, items)
+    # ---- the optimizer step that follows an observer call
+    sitems = _step_cases(chk)
+    sresults = common.pmap(run_step_case, sitems)
+    slines = [driver_line(it, r['flags']).replace('walk ', 'stepcase ', 1) for it, r in zip(sitems, sresults)]
     lines = [driver_line(it, r['flags']) for it, r in zip(items, results)]
-    model = chk.driver('C18', lines) if not any('lake build' in b for b in chk.proof_broken) else [None] * len(lines)
+    model = chk.driver('C18', lines + slines) if not any('lake build' in b for b in chk.proof_broken) \
+        else [None] * (len(lines) + len(slines))
+    model, smodel = model[:len(lines)], model[len(lines):]
+    for it, r, ans in zip(sitems, sresults, smodel):
+        if ans is not None and r['real'] not in (None, 'twin-raised'):
+            chk.corr({'spec': it['spec'], 'train': it['train'], 'disable': it.get('disable', False), 'mixed': it.get('mixed'),
+                      'step-after': it['ops']}, r['real'], ans,
+                     'is the cost differentiable w.r.t. the NAS parameters after the observer calls, and does the '
+                     'optimizer step equal the twin\'s')
+        for v in r['violations']:
+            chk.violation(v['key'], v['what'], v['case'])
+        chk.count((json.dumps(it['spec'], sort_keys=True), it['train'], tuple(it['ops']), 'step'),
+                  sample={'spec': it['spec'], 'train': it['train'], 'step-after': it['ops'], 'impl': r['real']},
+                  bucket='step-leg:%s' % it['spec']['kind'])
+        chk.hist['step-leg:' + str(r['real'])] = chk.hist.get('step-leg:' + str(r['real']), 0) + 1
     for it, r, ans in zip(items, results, model):
         method = om.METHOD[it['spec']['kind']]
         if ans is not None:
@@ -449,7 +588,8 @@ def run(chk):
     for v in chk.violations:
         first.setdefault(v['key'], v)
     for key, v in first.items():
-        v['case'] = _shrink(v['case'], key)
+        if v['case'].get('kind') == 'walk':
+            v['case'] = _shrink(v['case'], key)
     chk.violations = list(first.values()) + [v for v in chk.violations if v is not first[v['key']]]
     # ---- escalation: a broken proof / correspondence widens the search
     broken = bool(chk.proof_broken or chk.corr_disagreements)
@@ -499,6 +639,13 @@ def _shrink(case, key):
 def replay(data):
     common.use_repo_on_path()
     case = data['case']
+    if case.get('kind') == 'step':
+        r = run_step_case({'spec': case['spec'], 'train': case['train'], 'disable': case.get('disable', False),
+                           'mixed': case.get('mixed'), 'ops': case['ops']})
+        print('forward -> %s -> loss -> backward -> step:' % case['ops'], r['real'])
+        for v in r['violations']:
+            print('VIOLATES', v['key'], '-', v['what'])
+        return 1 if data.get('key') in [v['key'] for v in r['violations']] else 0
     r = run_walk({'spec': case['spec'], 'train': case['train'], 'disable': case.get('disable', False),
                   'mixed': case.get('mixed'), 'ops': case['ops']})
     for st in r['steps']:
